@@ -389,9 +389,10 @@ func TestC19(t *testing.T) {
 // ---- C19 part 2: hostile definitions, in the isolated worker
 
 type C19Hostile struct {
-	Pkg  string
-	Def  string
-	Kind string
+	Pkg   string
+	Def   string
+	Kind  string
+	Chain int `json:",omitempty"` // deep-chain: number of types, each containing the next
 }
 
 func genCycle(t *rapid.T) string {
@@ -432,7 +433,12 @@ var hostileLines = []string{"]x[ name", "uint8[ x", "uint8] x", "uint8[][] x", "
 
 func genC19Hostile(t *rapid.T) C19Hostile {
 	h := C19Hostile{Pkg: rapid.SampledFrom([]string{"", "p", "std_msgs", "a/b"}).Draw(t, "pkg")}
-	switch rapid.IntRange(0, 5).Draw(t, "hostile-kind") {
+	switch rapid.IntRange(0, 6).Draw(t, "hostile-kind") {
+	case 6:
+		// an acyclic chain T0 -> T1 -> ... : nesting depth, and with it the parser's recursion, is up to the input
+		h.Kind = "deep-chain"
+		h.Pkg = "p"
+		h.Chain = rapid.SampledFrom([]int{300, 3000, 30000, 250000}).Draw(t, "chain")
 	case 0:
 		h.Kind = "random-bytes"
 		h.Def = string(rapid.SliceOfN(rapid.Byte(), 0, 200).Draw(t, "bytes"))
@@ -481,7 +487,24 @@ func genC19Hostile(t *rapid.T) C19Hostile {
 	return h
 }
 
+func chainDefinition(n int) string {
+	var sb strings.Builder
+	sb.WriteString("T1 f\n")
+	for i := 1; i < n; i++ {
+		fmt.Fprintf(&sb, "================================================================================\nMSG: p/T%d\n", i)
+		if i+1 < n {
+			fmt.Fprintf(&sb, "T%d f\n", i+1)
+		} else {
+			sb.WriteString("uint8 x\n")
+		}
+	}
+	return sb.String()
+}
+
 func checkC19Hostile(h C19Hostile, st *stats.Collector) error {
+	if h.Kind == "deep-chain" {
+		h.Def = chainDefinition(h.Chain) // built here so that replay files stay small
+	}
 	in := append([]byte(h.Pkg), []byte(h.Def)...)
 	o := worker().Call(isolate.Req{Entry: entryRos1msg, Aux: uint64(len(h.Pkg)), Input: in}, 10*time.Second, 600*time.Second)
 	label := fmt.Sprintf("ParseMessageDefinition(%q, %d-byte %s definition)", h.Pkg, len(h.Def), h.Kind)
@@ -489,6 +512,9 @@ func checkC19Hostile(h C19Hostile, st *stats.Collector) error {
 		return err
 	}
 	nontrivial := strings.Contains(h.Def, "/") || h.Kind == "cyclic-types" || h.Kind == "diamond-expansion"
+	if h.Kind == "deep-chain" {
+		h.Def = "" // not part of the case identity
+	}
 	cl := "outcome=value"
 	if o.Text != "" {
 		cl = "outcome=error"
